@@ -167,7 +167,7 @@ impl Run<'_> {
 
 /// Ok(obs) = the run reached its end or a verdict; Err = a harness-side wait did not see what it needed.
 async fn run(case: &Case) -> Result<Obs, String> {
-    let w = World::new(&WorldCfg { nodes: 1, owner_is_contact_point: true, keepalive: None }).await?;
+    let w = World::new(&WorldCfg::new(1)).await?;
     let r = drive(case, &w).await;
     let r = match r {
         Ok(mut obs) => {
